@@ -34,6 +34,10 @@ func (b Bound) text() string {
 		return fmt.Sprintf("last + %d", b.I)
 	case "str":
 		return `"a"`
+	case "innersellast":
+		// elements of the nested array $[0] that equal last: last is written inside the outer brackets only
+		// (the nested subscript is closed before the filter), so it is the outer array's last index
+		return "$[0][0 to 1] ? (@ == last)"
 	case "litabs":
 		return "(-1).abs()" // a literal followed by a method: the method's result is the subscript
 	case "littype":
@@ -137,7 +141,7 @@ var checkSubscript = register("c14.subscript", func(c SubscriptCase) *Violation 
 
 // evalBound is the oracle's reading of the statement: a subscript must be a
 // single number within int32, truncated toward zero; last = n-1.
-func evalBound(b Bound, arr []any) (int64, bool) {
+func evalBound(b Bound, arr []any, strict bool) (int64, bool) {
 	n := int64(len(arr))
 	trunc := func(f float64) (int64, bool) {
 		t := math.Trunc(f)
@@ -159,6 +163,33 @@ func evalBound(b Bound, arr []any) (int64, bool) {
 		return n - 1 + b.I, true
 	case "guarded0", "guardedfail0":
 		return 0, true
+	case "innersellast":
+		if len(arr) == 0 {
+			return 0, false
+		}
+		inner, isArr := arr[0].([]any)
+		if !isArr {
+			if strict {
+				return 0, false
+			}
+			inner = []any{arr[0]}
+		}
+		if strict && len(inner) < 2 {
+			return 0, false // out of bounds
+		}
+		var hit []int64
+		for i := 0; i < len(inner) && i < 2; i++ {
+			if inner[i] == nil {
+				continue // D19: a selected null is dropped anyway, and null == last is false
+			}
+			if r, ok := numRat(inner[i]); ok && r.IsInt() && r.Num().IsInt64() && r.Num().Int64() == int64(len(arr)-1) {
+				hit = append(hit, r.Num().Int64())
+			}
+		}
+		if len(hit) != 1 {
+			return 0, false
+		}
+		return hit[0], true
 	case "litabs", "litfloor":
 		return 1, true
 	case "max32":
@@ -249,14 +280,14 @@ func checkSubscriptFacts(c SubscriptCase) (*Violation, subFacts) {
 	if wantErr == "" {
 	loop:
 		for _, s := range c.Subs {
-			from, ok := evalBound(s.From, arr)
+			from, ok := evalBound(s.From, arr, c.Strict)
 			if !ok {
 				wantErr = "bound " + s.From.text() + " is not a single number within int32"
 				break
 			}
 			to := from
 			if s.To != nil {
-				to, ok = evalBound(*s.To, arr)
+				to, ok = evalBound(*s.To, arr, c.Strict)
 				if !ok {
 					wantErr = "bound " + s.To.text() + " is not a single number within int32"
 					break
@@ -325,7 +356,7 @@ func subscriptBounds(full bool) []Bound {
 		Bound{Kind: "last"}, Bound{Kind: "lastminus", I: 1}, Bound{Kind: "lastminus", I: 2}, Bound{Kind: "lastplus", I: 1})
 	if full {
 		bs = append(bs, Bound{Kind: "str"}, Bound{Kind: "big"}, Bound{Kind: "negbig"}, Bound{Kind: "multi"}, Bound{Kind: "none"}, Bound{Kind: "null"}, Bound{Kind: "bool"},
-			Bound{Kind: "num", F: 2147483647.5}, Bound{Kind: "num", F: 2147483648.5}, Bound{Kind: "num", F: 1e300}, Bound{Kind: "inner_last"}, Bound{Kind: "inner_first"}, Bound{Kind: "guarded0"}, Bound{Kind: "arr1"}, Bound{Kind: "arr2"}, Bound{Kind: "nested1"}, Bound{Kind: "guardedfail0"}, Bound{Kind: "max32"}, Bound{Kind: "min32"}, Bound{Kind: "litabs"}, Bound{Kind: "littype"}, Bound{Kind: "litfloor"})
+			Bound{Kind: "num", F: 2147483647.5}, Bound{Kind: "num", F: 2147483648.5}, Bound{Kind: "num", F: 1e300}, Bound{Kind: "inner_last"}, Bound{Kind: "inner_first"}, Bound{Kind: "guarded0"}, Bound{Kind: "arr1"}, Bound{Kind: "arr2"}, Bound{Kind: "nested1"}, Bound{Kind: "guardedfail0"}, Bound{Kind: "max32"}, Bound{Kind: "min32"}, Bound{Kind: "innersellast"}, Bound{Kind: "litabs"}, Bound{Kind: "littype"}, Bound{Kind: "litfloor"})
 		bs = append(bs, Bound{Kind: "var", F: -0.5}, Bound{Kind: "var", F: 1.9})
 	}
 	return bs
@@ -361,7 +392,7 @@ func TestC14(t *testing.T) {
 		ev.Sample(class+":"+f.class, map[string]string{"path": c.pathText(), "doc": c.Doc})
 	}
 	alpha := []string{`1`, `"s"`, `null`, `[]`, `[7,8]`, `{}`}
-	docs := append(arraysOver(alpha, 3), `1`, `"s"`, `null`, `{}`, `{"a":[1]}`, `[[0,1],5,6]`, `[[2],5,6,7]`, `[[1,0],[3]]`, `[[],1]`, `[0,1,2]`, `[2,1,0]`)
+	docs := append(arraysOver(alpha, 3), `1`, `"s"`, `null`, `{}`, `{"a":[1]}`, `[[0,1],5,6]`, `[[2],5,6,7]`, `[[1,0],[3]]`, `[[],1]`, `[0,1,2]`, `[2,1,0]`, `[[3,1],20,30,40]`, `[[1,3],20,30,40]`, `[[2,2],5,6]`, `[[1],7]`, `[[3,3],20,30,40]`, `[3,20,30,40]`)
 	docs = append(docs, arraysOver([]string{`1`, `null`, `[7,8]`}, 4)[40:]...) // the length-4 arrays over a smaller alphabet
 	t.Run("exhaustive", func(t *testing.T) {
 		b := ev.enum(t)
